@@ -67,8 +67,8 @@ def _escape(n, choice):
         return n
     if choice == 1:  # \HH + terminating blank
         return '\\%x ' % ord(n[0]) + n[1:]
-    if choice == 2:  # six digits need no terminator
-        return '\\%06x' % ord(n[0]) + n[1:]
+    if choice == 2:  # six digits; one following white-space character still belongs to the escape, so it is always supplied
+        return '\\%06x ' % ord(n[0]) + n[1:]
     for i, ch in enumerate(n):  # simple escape of the first letter that is no hex digit
         if ch.lower() in NONHEX:
             return n[:i] + '\\' + ch + n[i + 1:]
